@@ -9,8 +9,11 @@ only = sys.argv[1:]
 for name, (q, contract, sel) in goldenreg.REGISTRY.items():
     if only and name not in only:
         continue
-    n = golden.freeze(fx, name, q, contract, **sel)
-    print("%-32s %3d events" % (name, n))
+    try:
+        n = golden.freeze(fx, name, q, contract, **sel)
+        print("%-32s %3d events" % (name, n))
+    except Exception as e:
+        print("%-32s FAILED: %s" % (name, str(e)[:120]))
 
 from ctpgsa import deporder
 for name, (q, npar) in goldenreg.DEP.items():
